@@ -53,8 +53,8 @@ KDiv(x, y) ==      \* x / y
     ELSE IF x.m = 0 THEN (IF y.m < 0 THEN U ELSE KFin(0, 0))
     ELSE LET yo == OddPart(y.m)                     \* y = yo * 2^yt / 2^y.e
              yt == TwoExp(y.m)
-         IN  IF x.m % yo # 0 THEN U                 \* quotient is not dyadic
-             ELSE LET q  == x.m \div yo             \* x/y = q * 2^(y.e - yt - x.e)
+         IN  IF x.m % AbsI(yo) # 0 THEN U           \* quotient is not dyadic
+             ELSE LET q  == (IF yo < 0 THEN 0 - 1 ELSE 1) * (x.m \div AbsI(yo))      \* x/y = q * 2^(y.e - yt - x.e)
                       ex == x.e + yt - y.e          \* = q / 2^ex
                   IN  IF ex >= 0 THEN KMake(q, ex)
                       ELSE IF 0 - ex > 14 THEN U ELSE LET big == q * Pow2(0 - ex) IN IF AbsI(q) < 16384 /\ AbsI(big) < 16384 THEN KFin(big, 0) ELSE U
@@ -81,7 +81,7 @@ BToK(b) == KFin(b, 0)
 KToZ(x) == IF ~KIsFin(x) THEN U ELSE LET d == Pow2(x.e) IN ZI(IF x.m >= 0 THEN x.m \div d ELSE 0 - ((0 - x.m) \div d))   \* toward zero
 NumToK(v) == CASE v.k = "K" -> v [] v.k = "Z" -> ZToK(v.v) [] v.k = "B" -> BToK(v.v) [] OTHER -> U
 WText(b) == IF b THEN <<119, 97, 104, 114>> ELSE <<102, 97, 108, 115, 99, 104>>
-IsScalarCp(c) == (c >= 0 /\ c <= 55295) \/ (c >= 57344 /\ c <= 1114111)
+IsScalarCp(c) == (c >= 1 /\ c <= 55295) \/ (c >= 57344 /\ c <= 1114111)      \* U+0000 cannot live in a C string: U
 
 (* the type of a value (aliases are transparent and do not exist at run time) *)
 RECURSIVE TypeOf(_)
